@@ -364,6 +364,9 @@ def failOnErr : S → S
   | .callM a k => .callM a (failOnErr k)
   | .fillMapS l o cl b k => .fillMapS l o cl b (failOnErr k)
   | .pollMapS l o cl k => .pollMapS l o cl (failOnErr k)
+  | .callM2 a b k => .callM2 a b (failOnErr k)
+  | .fillZipMapS l a b cl bd k => .fillZipMapS l a b cl bd (failOnErr k)
+  | .pollZipMapS l a b cl k => .pollZipMapS l a b cl (failOnErr k)
   | .allocS k => .allocS (failOnErr k)
   | .abortAlloc => .abortAlloc
   | .guardNew p k => .guardNew p (failOnErr k)
@@ -397,6 +400,9 @@ def resultLeaves : S → Bool
   | .callM _ k => resultLeaves k
   | .fillMapS _ _ _ _ k => resultLeaves k
   | .pollMapS _ _ _ k => resultLeaves k
+  | .callM2 _ _ k => resultLeaves k
+  | .fillZipMapS _ _ _ _ _ k => resultLeaves k
+  | .pollZipMapS _ _ _ _ k => resultLeaves k
   | .allocS k => resultLeaves k
   | .abortAlloc => true
   | .guardNew _ k => resultLeaves k
@@ -581,6 +587,42 @@ theorem exec_failOnErr (c : Ctx) (hb : c.bad = none) : ∀ (s : S) (env : List V
     | panicked => rfl
     | ub => rfl
   | pollMapS l o cl k _ ih =>
+    intro env st h
+    simp only [failOnErr, exec]
+    split
+    · generalize exec c cl _ _ = L
+      obtain ⟨tr, res, st'⟩ := L
+      cases res with
+      | ret v =>
+        cases v with
+        | elem y =>
+          simp only []
+          rw [ih _ _ h]
+          have := postR_prefix (tr ++ [Ev.drop y]) (exec c k (env ++ [V.bool true]) st')
+          simp only [List.append_assoc, List.singleton_append] at this
+          exact this.symm
+        | _ => rfl
+      | panicked => rfl
+      | ub => rfl
+    · exact ih _ _ h
+  | callM2 a b k ih =>
+    intro env st h
+    simp only [failOnErr, exec]
+    split
+    · split
+      · rw [ih _ _ h]; exact (postR_prefix [_, _, _] _).symm
+      · rfl
+    · rfl
+  | fillZipMapS l a b cl bd k _ _ ih =>
+    intro env st h
+    simp only [failOnErr, exec]
+    generalize zipMapLoop _ _ _ _ _ _ = L
+    obtain ⟨tr, res, st'⟩ := L
+    cases res with
+    | ret v => simp only []; rw [ih _ _ h]; exact (postR_prefix _ _).symm
+    | panicked => rfl
+    | ub => rfl
+  | pollZipMapS l a b cl k _ ih =>
     intro env st h
     simp only [failOnErr, exec]
     split
